@@ -22,9 +22,15 @@ HEADER_LINES = {"text": 1, "csv": 1}
 MALFORMED_SCALARS = [b"-", b"1e999", b"-e", b"1e", b"1e+", b"falsy", b"trux", b"nul.", b"-a", b"-E5", b"-1e999", b"-}"]
 
 
+# what some producers put in front of a text: byte order marks, whole or cut short - bytes that belong to no value, like any others
+MARKS = [b"\xef\xbb\xbf", b"\xef\xbb", b"\xef", b"\xff\xfe", b"\xfe\xff", b"\xef\xbb\xbf\xef\xbb\xbf", b"\xef\xbf\xbd", b"\x00", b"\x1a", b"#!", b"\xc3"]
+
+
 def garbage(r):
     if r.random() < 0.12:
         return r.choice(MALFORMED_SCALARS)
+    if r.random() < 0.1:
+        return r.choice(MARKS)
     n = r.choice([1, 1, 1, 2, 2, 3, 5, 9])
     if r.random() < 0.2:
         return bytes([r.choice(FAVOUR)]) * r.choice([1, 1, 2, 3])     # one byte class only (e.g. a run of form feeds)
@@ -41,6 +47,10 @@ def noisy_stream(r, vals, pnoise):
         if r.random() < pnoise:
             toks = [garbage(r) for _ in range(r.choice([1, 1, 2]))]
             g = r.choice(WSB) + b"".join(t + r.choice(WSB) for t in toks)
+            if i == 0 and r.random() < 0.5:
+                g = g.lstrip(b" \n\t\r")           # garbage as the very first bytes of the input
+                if r.random() < 0.5:
+                    g = r.choice(MARKS) + r.choice(WSB) + (g if r.random() < 0.5 else b"")
             if i == len(texts) and r.random() < 0.3:
                 g = g.rstrip(b" \n\t\r")            # garbage right before end of input
             noisy += g
@@ -112,6 +122,13 @@ def check(tier, seed, replay=None):
             argv = PIPELINES[pipeline] + ["--on-error=" + policy]
             recipes.append({"kind": "noise", "policy": policy, "pipeline": pipeline, "regions": regions, "before": before, "vals": [enc(v) for v in vals],
                             "hdr": HEADER_LINES.get(pipeline, 0), "runs": [{"argv": argv, "stdin": hexs(noisy)}, {"argv": argv, "stdin": hexs(clean)}]})
+        # a byte order mark, whole or cut short, as the first bytes of the input, under every policy, on stdin: one malformed region before the first value
+        for mark in MARKS[:6]:
+            for policy in ("ignore", "stdout", "stderr", "panic"):
+                vals = [("num", "1"), ("str", [0x61])]
+                argv = ["--on-error=" + policy]
+                recipes.append({"kind": "noise", "policy": policy, "pipeline": "plain", "regions": 1, "before": 0, "vals": [enc(v) for v in vals], "hdr": 0,
+                                "runs": [{"argv": argv, "stdin": hexs(mark + b' 1 "a"\n')}, {"argv": argv, "stdin": hexs(b' 1 "a"\n')}]})
         # the same garbage, any bytes: lexer agreement (drift only)
         for i in range(100 if quick else 5000):
             data = bytes(rnd.choice(b' \n"\\u01-.eE+[]{},:trnfa\xc3\x80\xf0') for _ in range(rnd.choice([1, 2, 3, 5, 8, 13, 21])))
